@@ -2,6 +2,7 @@ package props
 
 import (
 	"bytes"
+	"filippo.io/age/plugin"
 	"fmt"
 	"os"
 	"path/filepath"
@@ -285,6 +286,92 @@ func c11Check(c c11Case, st *stats.Run) error {
 	return nil
 }
 
+// the same recipient values asked again: a recipient may hand out its stored
+// label list, repeat a label in it, and stand at two positions of a list
+type c11Reuse struct {
+	Lists [][]string `json:"lists"` // label list of each distinct recipient value
+	Order []int      `json:"order"` // the recipient list, as indices into Lists (an index may repeat)
+	Calls int        `json:"calls"`
+}
+
+func c11CheckReuse(c c11Reuse, st *stats.Run) error {
+	p := hx.ThePool()
+	build := func() ([]age.Recipient, []*hx.StubSpec) {
+		var vals []age.Recipient
+		var specs []*hx.StubSpec
+		for i, l := range c.Lists {
+			sp := &hx.StubSpec{Stanzas: []refage.Stanza{{Type: fmt.Sprintf("stub%d", i), Body: []byte{byte(i)}}}, HasLabels: true, Labels: append([]string{}, l...), ShareLabels: true}
+			specs = append(specs, sp)
+			vals = append(vals, p.Recipient(hx.RecSpec{Kind: "stub", Stub: sp}))
+		}
+		var rs []age.Recipient
+		for _, k := range c.Order {
+			rs = append(rs, vals[k%len(vals)])
+		}
+		return rs, specs
+	}
+	run := func(rs []age.Recipient) bool {
+		var dst hx.RecWriter
+		w, err := age.Encrypt(&dst, rs...)
+		if w != nil {
+			w.Close()
+		}
+		return err == nil
+	}
+	fresh, _ := build()
+	alone := run(fresh)
+	rs, specs := build()
+	twice := false
+	seen := map[int]bool{}
+	for _, k := range c.Order {
+		twice = twice || seen[k%len(c.Lists)]
+		seen[k%len(c.Lists)] = true
+	}
+	st.Case(true, stats.HashJSON(c), "reuse", fmt.Sprintf("reuse:same-value-twice=%v", twice), fmt.Sprintf("reuse:calls=%d", c.Calls), fmt.Sprintf("reuse:alone-accepted=%v", alone))
+	st.Sample("recipient-reuse", c)
+	for k := 0; k < c.Calls; k++ {
+		if got := run(rs); got != alone {
+			mutated := ""
+			for i, sp := range specs {
+				if fmt.Sprint(sp.Labels) != fmt.Sprint(c.Lists[i]) {
+					mutated += fmt.Sprintf("; recipient %d's own label list is now %q (was %q)", i, sp.Labels, c.Lists[i])
+				}
+			}
+			return pbt.Failf("C11/history-dependent-decision", "recipients with label lists %q in order %v: fresh values are %s, the same values on use %d are %s%s", c.Lists, c.Order, map[bool]string{true: "accepted", false: "refused"}[alone], k+1, map[bool]string{true: "accepted", false: "refused"}[got], mutated)
+		}
+	}
+	// the sets are what counts: when the sets are equal and no list repeats a label the list is accepted, when they differ it is refused
+	setOf := func(l []string) string {
+		m := map[string]bool{}
+		for _, x := range l {
+			m[x] = true
+		}
+		var ks []string
+		for x := range m {
+			ks = append(ks, x)
+		}
+		sort.Strings(ks)
+		return fmt.Sprintf("%q", ks)
+	}
+	same, dup := true, false
+	for _, k := range c.Order {
+		l := c.Lists[k%len(c.Lists)]
+		same = same && setOf(l) == setOf(c.Lists[c.Order[0]%len(c.Lists)])
+		m := map[string]bool{}
+		for _, x := range l {
+			dup = dup || m[x]
+			m[x] = true
+		}
+	}
+	if !same && alone {
+		return pbt.Failf("C11/wrong-decision", "label lists %q (order %v) are different sets, yet the list was accepted", c.Lists, c.Order)
+	}
+	if same && !dup && !alone {
+		return pbt.Failf("C11/wrong-decision", "label lists %q (order %v) are equal sets, yet the list was refused", c.Lists, c.Order)
+	}
+	return nil
+}
+
 // through the age command: a refused recipient list leaves nothing at the output
 type c11CLI struct {
 	Armor  bool `json:"armor"`
@@ -340,12 +427,137 @@ func c11CheckCLI(c c11CLI, st *stats.Run) error {
 	return nil
 }
 
+// through the age command with plugin recipients that declare labels, given
+// with -r or listed in a recipients file (-R)
+type c11PlugCLI struct {
+	Recs []string `json:"recs"` // each "x", "lbl" (plugin declaring postquantum), "nol" (plugin without labels), suffixed ":R" when listed in the recipients file
+	Out  string   `json:"out"`  // file | stdout
+}
+
+func c11CheckPlugCLI(c c11PlugCLI, st *stats.Run) error {
+	bin := os.Getenv("VERIF_BIN")
+	if bin == "" {
+		return nil
+	}
+	p := hx.ThePool()
+	dir, err := os.MkdirTemp(".", "c11p-")
+	if err != nil {
+		return pbt.Failf("C11/harness", "%v", err)
+	}
+	dir, _ = filepath.Abs(dir)
+	defer os.RemoveAll(dir)
+	pdir := filepath.Join(dir, "plugins")
+	stanza := "-> recipient-stanza 0 lbl arg\n" + refage.B64(hx.PRG(3, 32)) + "\n"
+	for _, name := range []string{"lbl", "nol"} {
+		sc := &hx.PlugScript{Steps: []hx.PlugStep{{Raw: stanza}}}
+		if name == "lbl" {
+			sc.Steps = append(sc.Steps, hx.PlugStep{Raw: "-> labels postquantum\n\n"})
+		}
+		sc.Steps = append(sc.Steps, hx.PlugStep{Raw: "-> done\n\n", NoReply: true})
+		if err := hx.InstallPluginNamed(dir, pdir, name, sc); err != nil {
+			return pbt.Failf("C11/harness", "%v", err)
+		}
+	}
+	work := filepath.Join(dir, "work")
+	os.MkdirAll(work, 0o755)
+	os.WriteFile(filepath.Join(work, "in.txt"), []byte("plaintext"), 0o644)
+	var args, fileLines []string
+	sets := map[string]bool{}
+	for i, r := range c.Recs {
+		kind, via, _ := strings.Cut(r, ":")
+		var str string
+		switch kind {
+		case "x":
+			str = refage.Bech32Encode("age", refage.X25519Public(p.X25519[i%8]))
+			sets[""] = true
+		case "lbl":
+			str = plugin.EncodeRecipient("lbl", []byte{byte(i)})
+			sets["postquantum"] = true
+		default:
+			str = plugin.EncodeRecipient("nol", []byte{byte(i)})
+			sets[""] = true
+		}
+		if via == "R" {
+			fileLines = append(fileLines, str)
+		} else {
+			args = append(args, "-r", str)
+		}
+	}
+	if len(fileLines) > 0 {
+		os.WriteFile(filepath.Join(work, "recips.txt"), []byte("# recipients\n"+strings.Join(fileLines, "\n")+"\n"), 0o644)
+		args = append(args, "-R", "recips.txt")
+	}
+	if c.Out == "file" {
+		args = append(args, "-o", "out.age")
+	}
+	args = append(args, "in.txt")
+	want := len(sets) == 1
+	st.Case(len(c.Recs) >= 2, stats.HashJSON(c), "cli-plugin-labels", fmt.Sprintf("cli-plugin-labels:expect-success=%v", want), fmt.Sprintf("cli-plugin-labels:uses-R=%v", len(fileLines) > 0))
+	st.Sample("cli-plugin-labels", c)
+	code, stdout, stderr := runCLI(work, []string{"PATH=" + pdir, "HOME=" + work, hx.PlugEnv + "=" + dir}, nil, filepath.Join(bin, "age"), args...)
+	if code == -2 {
+		return nil
+	}
+	out, rerr := os.ReadFile(filepath.Join(work, "out.age"))
+	if want {
+		if code != 0 {
+			return pbt.Failf("C11/wrong-decision", "age %v: every recipient declares the same label set, yet the list was refused: %s", c.Recs, trunc([]byte(stderr)))
+		}
+		return nil
+	}
+	if code == 0 {
+		return pbt.Failf("C11/wrong-decision", "age %v: recipients declare different label sets (a plugin recipient declares postquantum, another recipient none), yet the list was accepted; %d bytes written", c.Recs, len(stdout)+len(out))
+	}
+	if len(stdout) != 0 || rerr == nil {
+		return pbt.Failf("C11/bytes-before-refusal", "age %v refused the list but wrote %d bytes to standard output and created the output file: %v", c.Recs, len(stdout), rerr == nil)
+	}
+	return nil
+}
+
 func TestC11(t *testing.T) {
 	s := pbt.Start(t, "C11")
 	defer s.Finish()
 	check := func(c c11Case) error { return c11Check(c, s.St) }
 	pbt.Regress(s, "labels", check)
 
+	pbt.Each(s, "labels-cli-plugin", func(yield func(c11PlugCLI)) {
+		kinds := []string{"x", "lbl", "nol", "x:R", "lbl:R", "nol:R"}
+		n := 0
+		for _, a := range kinds {
+			if s.Mine(n) {
+				yield(c11PlugCLI{Recs: []string{a}, Out: "file"})
+			}
+			n++
+			for _, b := range kinds {
+				if s.Mine(n) {
+					yield(c11PlugCLI{Recs: []string{a, b}, Out: []string{"file", "stdout"}[n%2]})
+				}
+				n++
+			}
+		}
+		for _, l := range [][]string{{"x", "nol:R", "lbl:R"}, {"lbl:R", "lbl:R", "x"}, {"lbl", "lbl:R", "lbl"}, {"nol:R", "x:R", "x"}} {
+			if s.Mine(n) {
+				yield(c11PlugCLI{Recs: l, Out: "file"})
+			}
+			n++
+		}
+		s.St.Exhaust("the age command with every list of one or two recipients over {X25519, plugin declaring a label, plugin declaring none} x {-r, recipients file}, and four lists of three", int64(n))
+	}, func(c c11PlugCLI) error { return c11CheckPlugCLI(c, s.St) })
+	pbt.Each(s, "recipient-reuse", func(yield func(c11Reuse)) {
+		lists := [][]string{{"pq"}, {"pq", "foo"}, {"foo", "pq"}, {"pq", "foo", "pq"}, {"pq", "pq"}, {"foo", "pq", "foo", "pq"}, {"", "foo", "pq"}, {}}
+		n := 0
+		for a := range lists {
+			for b := range lists {
+				for _, order := range [][]int{{0, 1}, {0, 1, 0}, {0, 0}, {1, 0, 1}} {
+					if s.Mine(n) {
+						yield(c11Reuse{Lists: [][]string{lists[a], lists[b]}, Order: order, Calls: 3})
+					}
+					n++
+				}
+			}
+		}
+		s.St.Exhaust("pairs of recipient values over 8 label lists (with repeated labels, the empty label, no label) that hand out their stored list, in 4 list shapes (a value may stand twice), each list used three times", int64(n))
+	}, func(c c11Reuse) error { return c11CheckReuse(c, s.St) })
 	// exhaustive: <=3 recipients over the 16 subsets + "absent"
 	pbt.Each(s, "labels-exhaustive", func(yield func(c11Case)) {
 		n := 0
